@@ -93,6 +93,9 @@ def check_path(case, ctx):
                 raise Violation("C02/path/raised", "%s parent: public ckd(%d) at level %d raised %r" % (form, i, lvl, cur))
             compare_pub("C02/path", "%s parent, path %s level %d" % (form, R.fmt_path(path, "M"), lvl + 1),
                         cur, refs[lvl], p["testnet"], prv_nodes[lvl])
+    if path and not case.get("_sibling"):
+        # the parent whose public key has the same x and the other parity (scalar n - k), in the same process
+        check_path({"parent": dict(p, k=S.N - p["k"]), "path": path[:2], "_sibling": True}, ctx)
     if path:
         fresh = pub_parents(p)[1][0][1]
         st_, end = call(fresh.derive_path, list(path))
@@ -112,6 +115,11 @@ def check_refusal(case, ctx):
     p = case["parent"]
     prv, pubs = pub_parents(p)
     path = list(case["prefix"]) + [case["hard"]] + list(case["suffix"])
+    # the private twin derives the very same hardened child first (same process)
+    tw = prv
+    for i in case["prefix"]:
+        tw = tw.ckd(i)
+    call(tw.ckd, case["hard"])
     for form, root in pubs:
         node = root
         for i in case["prefix"]:
